@@ -16,10 +16,12 @@ const SOH = 0x01
 type Field struct {
 	Tag int
 	Val string
+	// RawTag, when set, is written instead of Tag (tag texts that are not an int, e.g. 2^64+49).
+	RawTag string
 }
 
-func F(tag int, val string) Field { return Field{tag, val} }
-func FI(tag int, v int) Field     { return Field{tag, strconv.Itoa(v)} }
+func F(tag int, val string) Field { return Field{Tag: tag, Val: val} }
+func FI(tag int, v int) Field     { return Field{Tag: tag, Val: strconv.Itoa(v)} }
 
 type Msg struct {
 	Fields []Field
@@ -54,7 +56,7 @@ func Scan(b []byte) (Msg, error) {
 		if err != nil {
 			return m, fmt.Errorf("wire: bad tag %q", f[:eq])
 		}
-		m.Fields = append(m.Fields, Field{tag, string(f[eq+1:])})
+		m.Fields = append(m.Fields, Field{Tag: tag, Val: string(f[eq+1:])})
 		if IsDataLengthTag(tag) {
 			if n, err := strconv.Atoi(string(f[eq+1:])); err == nil && n >= 0 {
 				dataLen = n
@@ -170,7 +172,11 @@ func CheckFrame(b []byte) error {
 func Encode(beginString string, fields []Field) []byte {
 	var body bytes.Buffer
 	for _, f := range fields {
-		body.WriteString(strconv.Itoa(f.Tag))
+		if f.RawTag != "" {
+			body.WriteString(f.RawTag)
+		} else {
+			body.WriteString(strconv.Itoa(f.Tag))
+		}
 		body.WriteByte('=')
 		body.WriteString(f.Val)
 		body.WriteByte(SOH)
